@@ -264,6 +264,9 @@ class C05(Check):
                 calls.append(['update', [[fml.VARS[i], dense.to_impl(c['sigs'][i][ch[str(i)][j][0]:ch[str(i)][j][1]])] for i in used]])
             out.append({'monitor': 'dense-online', 'vars': fml.VARS[:c['nv']], 'spec': 'out = ' + dense.dense_formula_text(c['f']),
                         'pastify': c['past'], 'calls': calls})
+        # the last chunking once more, by a caller that refills one preallocated list of pairs per variable in place for every update()
+        if out and len(out[-1]['calls']) > 1:
+            out.append(dict(out[-1], reuse_buffers=True))
         return out
 
     def judge_direct(self, c, mlines, ires):
@@ -396,6 +399,14 @@ class C05(Check):
             if diff is not None:
                 return 'violation', dict(d2, observed=diff)
             covered += 1
+        if len(ires) > len(c['chunkings']):
+            # the same updates by a caller that reuses its lists: the batches are what they were at the time of each call
+            a, b = ires[len(c['chunkings']) - 1], ires[-1]
+            oc = lambda r: [r['status'], r.get('value') if r['status'] == 'ok' else r.get('kind')]
+            if [oc(r) for r in a['calls']] != [oc(r) for r in b['calls']]:
+                return 'violation', dict(det, shape='caller_reuses_its_lists', chunking=c['chunkings'][-1], expected={'fresh lists for every update()': [oc(r) for r in a['calls']]},
+                                         observed={'one list of pairs per variable, refilled in place before every update()': [oc(r) for r in b['calls']]})
+            self.reused = getattr(self, 'reused', 0) + 1
         c['_covered'] = covered
         return 'ok', None
 
